@@ -57,4 +57,5 @@ def main():
           "samples": [{"tree": repr(pool[len(pool) // 2])}], "failures": rest[:40], "known": hit})
 
 
-main()
+if __name__ == "__main__":
+    main()
